@@ -82,6 +82,19 @@ def run(case):
         out["subset"] = _oann(tb, b.subset(list(case["subset"])))
         out["subset_inv"] = _oann(tb, b.subset(set(case["subset"]), invert=True))
         assert triples(tb, b) == triples(tb, mk())
+        # a caller-owned iterator is advanced by exactly one element per name handed out
+        if case["gen"][0] == "list":
+            pool = list(case["gen"][1])
+            for what, f, n_used in (("relabel_tracks", lambda x, g: x.relabel_tracks(generator=g), lambda x: len(list(x.itertracks()))),
+                                    ("rename_tracks", lambda x, g: x.rename_tracks(generator=g), lambda x: len(list(x.itertracks()))),
+                                    ("rename_labels", lambda x, g: x.rename_labels(generator=g), lambda x: len(x.labels()))):
+                src = mk()
+                it = iter(pool)
+                need = n_used(src)
+                if need <= len(pool):
+                    f(src, it)
+                    left = list(it)
+                    assert left == pool[need:], f"{what} drew {len(pool) - len(left)} names from the caller's iterator for {need} tracks / labels"
         # every result that is promised to be a new annotation is independent of its source (checked last: it edits both)
         assert_independent(tb, r, a, "rename_labels(mapping)")
         for what, f in (("rename_labels(generator)", lambda x: x.rename_labels(generator=_gen(case["gen"]))),
